@@ -1,0 +1,35 @@
+//go:build verif
+
+package asn1
+
+import "math/big"
+
+// Verif* export the DER primitives of this package to the verification harness (C19).
+
+func VerifParseBool(b []byte) (bool, error)           { return parseBool(b) }
+func VerifCheckInteger(b []byte) error                { return checkInteger(b) }
+func VerifParseInt64(b []byte) (int64, error)         { return parseInt64(b) }
+func VerifParseInt32(b []byte) (int32, error)         { return parseInt32(b) }
+func VerifParseBigInt(b []byte) (*big.Int, error)     { return parseBigInt(b) }
+func VerifParseBitString(b []byte) (BitString, error) { return parseBitString(b) }
+func VerifParseBase128Int(b []byte, off int) (int, int, error) {
+	return parseBase128Int(b, off)
+}
+func VerifParseObjectIdentifier(b []byte) (ObjectIdentifier, error) {
+	return parseObjectIdentifier(b)
+}
+
+// VerifTagAndLength is the exported image of tagAndLength.
+type VerifTagAndLength struct {
+	Class, Tag, Length int
+	IsCompound         bool
+}
+
+func VerifParseTagAndLength(b []byte, off int) (VerifTagAndLength, int, error) {
+	t, o, err := parseTagAndLength(b, off)
+	return VerifTagAndLength{t.class, t.tag, t.length, t.isCompound}, o, err
+}
+
+func VerifAppendTagAndLength(dst []byte, t VerifTagAndLength) []byte {
+	return appendTagAndLength(dst, tagAndLength{t.Class, t.Tag, t.Length, t.IsCompound})
+}
